@@ -502,13 +502,24 @@ func runScript(s script, inj *injection) (res result) {
 				if mon.hasReader(e) {
 					return true
 				}
-				for _, oo := range outstanding {
-					if oo.Kind == opRLock {
-						for _, e2 := range oo.Ents {
-							if e2 == e {
-								return true // an outstanding RLock may hold it invisibly
-							}
+				// an outstanding RLock may hold e invisibly unless it is certainly stuck at or before e:
+				// e itself or an earlier entity of its list has a registered writer
+				b := blockedSet(mon, outstanding)
+				for g, oo := range outstanding {
+					if oo.Kind != opRLock {
+						continue
+					}
+					pos, last := -1, -1
+					for i, e2 := range oo.Ents {
+						if e2 == e {
+							pos = i
 						}
+						if mon.hasWriterOther(e2, g) {
+							last = i
+						}
+					}
+					if pos >= 0 && (!b[g] || pos < last) {
+						return true
 					}
 				}
 			}
